@@ -514,17 +514,20 @@ def o7_4b_base_level(mir, tier):
     fn = mir.method('CompactionManifest', 'is_base_level_for_key')
     shapes = [(2, 0), (0, 2), (2, 1), (1, 2)] if tier == 'quick' else [(a, b) for a in range(0, 4) for b in range(0, 3)]
     res = Result('O7.4b CompactionManifest::is_base_level_for_key', [fn.path],
-                 'compaction level 0; files at levels 2 and 3 in shapes %s (sorted, disjoint); two successive calls with ascending keys' % (shapes,))
+                 'compaction level 0 with files at levels 2 and 3 in shapes %s, and compaction levels 0 / 3 with files at levels 5 and 6 (sorted, disjoint); two successive calls with ascending keys' % (shapes,))
     t0 = time.time()
-    for (n2, n3) in shapes:
+    # (compaction level, the two levels that hold files): the deepest level must be looked at as well
+    placements = [(0, 2, 3), (0, 5, 6), (3, 5, 6)] if tier == 'quick' else [(0, 2, 3), (0, 5, 6), (3, 5, 6), (4, 6, 6), (1, 3, 6)]
+    for (clevel, la, lb), (n2, n3) in [(p, s) for p in placements for s in (shapes if p == (0, 2, 3) else [(1, 1), (0, 2)])]:
         w = World(mir)
-        lv = {2: [w.file('a%d' % i, number=20 + i) for i in range(n2)], 3: [w.file('b%d' % i, number=30 + i) for i in range(n3)]}
+        lv = {la: [w.file('a%d' % i, number=20 + i) for i in range(n2)]}
+        if lb != la: lv[lb] = [w.file('b%d' % i, number=30 + i) for i in range(n3)]
         LF = {l: [w.F(f) for f in fs] for l, fs in lv.items()}
         k1, k2 = w.key('k1'), w.key('k2'); K1, K2 = w.K(k1), w.K(k2)
-        pre = list(w.pre) + sorted_disjoint(LF[2]) + sorted_disjoint(LF[3]) + [kle(K1, K2)]
+        pre = list(w.pre) + sum((sorted_disjoint(LF[l]) for l in LF), []) + [kle(K1, K2)]
         ex = Exec(mir, base_summaries(mir), loop_bound=n2 + n3 + 9)
-        def contains(K): return Or(*[And(ULE(f['sm'][0], K[0]), ULE(K[0], f['lg'][0])) for l in (2, 3) for f in LF[l]]) if (n2 + n3) else BoolVal(False)
-        def argv(m): return ['base_level', '0', '%s:%d,%s:%d' % (key_bytes(mval(m, K1[0])), mval(m, K1[1]), key_bytes(mval(m, K2[0])), mval(m, K2[1]))] + _levels_argv(m, LF)
+        def contains(K): return Or(*[And(ULE(f['sm'][0], K[0]), ULE(K[0], f['lg'][0])) for l in LF for f in LF[l]]) if any(LF[l] for l in LF) else BoolVal(False)
+        def argv(m): return ['base_level', str(clevel), '%s:%d,%s:%d' % (key_bytes(mval(m, K1[0])), mval(m, K1[1]), key_bytes(mval(m, K2[0])), mval(m, K2[1]))] + _levels_argv(m, LF)
         def after1(r1, env, pc):
             def after2(r2, env2, pc2):
                 bad = False
@@ -537,7 +540,7 @@ def o7_4b_base_level(mir, tier):
                 if not bad and len(res.witnesses) < 4:
                     m = ex.model(); res.witnesses.append({'executor_result': [mval(m, r1), mval(m, r2)], 'replay': argv(m)})
             ex.run_fn(fn, [Ref('$cm'), Ref('$k2')], env, pc, after2)
-        env = {'$state': {}, '$cm': mk_compaction_manifest(mir, 0, mk_version(mir, lv)), '$k1': k1, '$k2': k2}
+        env = {'$state': {}, '$cm': mk_compaction_manifest(mir, clevel, mk_version(mir, lv)), '$k1': k1, '$k2': k2}
         ex.top(fn, [Ref('$cm'), Ref('$k1')], env, pre, after1)
         res.absorb(ex)
         for pc, msg, where in ex.panics:
@@ -630,15 +633,19 @@ def o7_4c_witness_ok(w, out):
 def o1_4_overlapping_files(mir, tier):
     fn = mir.method('Version', 'get_overlapping_files')
     shapes = [(3, 0, 0), (2, 2, 0), (1, 2, 2), (0, 3, 1)] if tier == 'quick' else [s for s in itertools.product(range(0, 4), repeat=3) if 0 < sum(s) <= 6]
+    # deep levels: counts for levels 0..6 (the 3-tuples above are padded with empty levels)
+    shapes = [tuple(s) + (0, 0, 0, 0) for s in shapes] + [(1, 0, 0, 1, 0, 0, 2), (0, 0, 0, 0, 0, 1, 1)] + ([(1, 1, 1, 1, 1, 1, 1)] if tier != 'quick' else [])
     res = Result('O1.4 Version::get_overlapping_files', [fn.path, 'find_file_with_upper_bound_range (inlined)'],
-                 'files at levels 0,1,2 in shapes %s; level-0 file numbers symbolic and distinct; free lookup key' % (shapes if tier == 'quick' else '%d shapes with <= 6 files' % len(shapes),))
+                 'files per level 0..6 in shapes %s; level-0 file numbers symbolic and distinct; free lookup key' % (shapes if tier == 'quick' else '%d shapes' % len(shapes),))
     t0 = time.time()
     for shape in shapes:
         w = World(mir)
-        lv = {0: [w.file('z%d' % i) for i in range(shape[0])], 1: [w.file('a%d' % i, number=100 + i) for i in range(shape[1])], 2: [w.file('b%d' % i, number=200 + i) for i in range(shape[2])]}
+        lv = {0: [w.file('z%d' % i) for i in range(shape[0])]}
+        for l in range(1, 7): lv[l] = [w.file('L%d_%d' % (l, i), number=100 * l + i) for i in range(shape[l])]
         LF = {l: [w.F(f) for f in fs] for l, fs in lv.items()}
         tk = w.key('t'); T = w.K(tk)
-        pre = list(w.pre) + [kle(f['sm'], f['lg']) for f in LF[0]] + sorted_disjoint(LF[1]) + sorted_disjoint(LF[2])
+        pre = list(w.pre) + [kle(f['sm'], f['lg']) for f in LF[0]]
+        for l in range(1, 7): pre += sorted_disjoint(LF[l])
         pre += [ULT(f['num'], bv(100)) for f in LF[0]] + [LF[0][i]['num'] != LF[0][j]['num'] for i in range(shape[0]) for j in range(i)]
         ex = Exec(mir, base_summaries(mir), loop_bound=sum(shape) + 10)
         numf = mir.field('FileMetadata', 'file_number')
@@ -651,7 +658,7 @@ def o1_4_overlapping_files(mir, tier):
                 posts.append(('level 0: result is not exactly the files whose user range contains the key', cont == BoolVal(ins[i])))
             posts.append(('level 0: files are not ordered newest (highest number) first', And(*[UGT(a, b) for a, b in zip(got0, got0[1:])]) if len(got0) > 1 else BoolVal(True)))
             posts.append(('level 0: a file is returned twice', BoolVal(len(got0) == sum(ins))))
-            for l in (1, 2):
+            for l in range(1, 7):
                 g = [f[numf] for f in ret[l]]
                 n = len(LF[l])
                 # reference: first file with largest >= target, kept iff its smallest user key <= target user key
@@ -663,16 +670,15 @@ def o1_4_overlapping_files(mir, tier):
                     cases.append(And(first, Not(keep), BoolVal(len(g) == 0)))
                 if n: cases.append(And(*[klt(f['lg'], T) for f in LF[l]], BoolVal(len(g) == 0)))
                 posts.append(('level %d: result is not the unique candidate file (first file with largest key >= lookup key, if it starts at or before the user key)' % l, Or(*cases)))
-            for l in range(3, 7): posts.append(('deeper empty level returned files', BoolVal(len(ret[l]) == 0)))
             def argv(m): return ['overlapping_files', '%s:%d' % (key_bytes(mval(m, T[0])), mval(m, T[1]))] + _levels_argv(m, LF)
-            def render(m): return [[mval(m, x) for x in (f[numf] for f in ret[l])] for l in range(3)]
+            def render(m): return [[mval(m, x) for x in (f[numf] for f in ret[l])] for l in range(7)]
             bad = False
             for label, post in posts:
                 ex.record_formula(label, pc, Not(post))
                 m = ex.model(Not(post))
                 if m is not None:
                     bad = True; res.violations.append({'label': label, 'shape': list(shape), 'executor_result': render(m), 'replay': argv(m)})
-            if not bad and len(res.witnesses) < 4 and sum(len(ret[l]) for l in range(3)) >= 2:
+            if not bad and len(res.witnesses) < 4 and sum(len(ret[l]) for l in range(7)) >= 2:
                 m = ex.model(); res.witnesses.append({'executor_result': render(m), 'replay': argv(m)})
         env = {'$state': {}, '$v': mk_version(mir, lv), '$t': tk}
         ex.top(fn, [Ref('$v'), Ref('$t')], env, pre, k)
@@ -701,11 +707,11 @@ def o1_4_confirm(v, out):
     a = v['replay']; t = a[1].split(':'); T = (int(t[0], 16), int(t[1])); lv = _parse_levels(a[2:])
     exp = _ref_overlapping_files(T, lv)
     got = {l: [int(x) for x in out.get('l%d' % l, '').split(',') if x] for l in range(7)}
-    return (any(got[l] != exp[l] for l in range(7)), 'native %s, reference %s' % ([got[l] for l in range(3)], [exp[l] for l in range(3)]))
+    return (any(got[l] != exp[l] for l in range(7)), 'native %s, reference %s' % ([got[l] for l in range(7)], [exp[l] for l in range(7)]))
 
 
 def o1_4_witness_ok(w, out):
-    return out.get('_rc') == 0 and [[int(x) for x in out.get('l%d' % l, '').split(',') if x] for l in range(3)] == w['executor_result']
+    return out.get('_rc') == 0 and [[int(x) for x in out.get('l%d' % l, '').split(',') if x] for l in range(7)] == w['executor_result']
 
 
 # ---------------------------------------------------------------- O7.7 VersionSet::pick_compaction
